@@ -13,7 +13,7 @@ use neurons::tensor::Tensor;
 pub fn meta(ctx: &Ctx) -> Meta {
     let e = max_epochs(ctx);
     Meta {
-        rule: format!("every validation-loss trajectory in {{rise,fall,equal}}^(E-1) for epoch budgets E in 1..{} x every tolerance T in 1..5, plus tolerances 6..12, 16, 20 with budgets T+1, T+2, T+4 on all trajectories with at most two non-rise events, with validation data (also with print frequencies 1, 2 and beyond the budget on a third of them, a quarter each after an earlier learn() call on the same network without / with validation data (which leaves the weights untouched), a third of them at a tiny scale: loss 2^-20 moving in steps of 2^-27, a third at a large offset: loss 2^20 moving by one unit in the last place per epoch, every trajectory without a fall also starting at a loss of exactly 0, and every trajectory without an 'equal' step that stops early also with a second validation sample steered so that the validation ACCURACY reaches a strict new best exactly at the stopping epoch); strictly rising trajectories under epoch budgets of 1000, 65536, i32::MAX-1 and i32::MAX (must stop at epoch T+1; watchdog of 60 s); every E in 1..{} without; the unmodified learn() is driven through each of them and the commanded pattern is re-derived from the returned vector (only matching runs count). Oracle over what learn() returned: len(train)=n; len(val_loss)=len(val_acc)=n (0 and n=E without validation data); stop(e) := e>T and the last T recorded losses strictly increasing is false for every e<n; if n<E then stop(n). States = (epoch, pattern prefix) pairs visited; transitions = epochs run; non-trivial = trajectories with at least one rise", e, e),
+        rule: format!("every validation-loss trajectory in {{rise,fall,equal}}^(E-1) for epoch budgets E in 1..{} x every tolerance T in 1..5, plus tolerances 6..12, 16, 20 with budgets T+1, T+2, T+4 on all trajectories with at most two non-rise events, with validation data (also with print frequencies 1, 2 and beyond the budget on a third of them, a quarter each after an earlier learn() call on the same network without / with validation data (which leaves the weights untouched), a third of them at a tiny scale: loss 2^-20 moving in steps of 2^-27, a third at a large offset: loss 2^20 moving by one unit in the last place per epoch, every trajectory without a fall also starting at a loss of exactly 0, half of the trajectories without an 'equal' step also with three validation samples around a loss of 2^20 whose recorded mean repeats while their sum rises (trajectory read back, not commanded), and every trajectory without an 'equal' step that stops early also with a second validation sample steered so that the validation ACCURACY reaches a strict new best exactly at the stopping epoch); strictly rising trajectories under epoch budgets of 1000, 65536, i32::MAX-1 and i32::MAX (must stop at epoch T+1; watchdog of 60 s); every E in 1..{} without; the unmodified learn() is driven through each of them and the commanded pattern is re-derived from the returned vector (only matching runs count). Oracle over what learn() returned: len(train)=n; len(val_loss)=len(val_acc)=n (0 and n=E without validation data); stop(e) := e>T and the last T recorded losses strictly increasing is false for every e<n; if n<E then stop(n). States = (epoch, pattern prefix) pairs visited; transitions = epochs run; non-trivial = trajectories with at least one rise", e, e),
         bound: format!("E <= {}, T <= 5; complete", e),
         exhaustive: true,
         assumptions: vec!["stop rule read as in the statement's anchor: the window of the last T recorded validation losses is strictly increasing (T-1 comparisons) and more than T epochs have run".into()],
@@ -64,7 +64,12 @@ pub fn check(case: &Kv, rep: &mut Report) {
     // epoch at which the loss rule fires. The stop rule is a predicate of the loss history alone. The first sample's
     // input is tripled so that the sign of every loss step is still the commanded one (patterns without 'equal' only).
     let acc_at: Option<usize> = case.opt("estar").and_then(|x| x.parse().ok());
-    let (kk, mult) = if acc_at.is_some() { (k + 1, 3.0f32) } else { (k, 1.0f32) };
+    // "thirds": three validation samples - the steered one moving by 2 ulp of the SUM per epoch around a loss of 2^20,
+    // and two constant ones. The recorded mean (sum / 3) then repeats itself now and then although the sum rises every
+    // epoch: division is only weakly monotone. The contract speaks of the recorded losses; in this mode the trajectory is
+    // not commanded but read back, and the contract is evaluated on what was recorded.
+    let thirds = case.opt("scale") == Some("thirds");
+    let (kk, mult) = if acc_at.is_some() { (k + 1, 3.0f32) } else if thirds { (k, 2.0f32) } else { (k, 1.0f32) };
     let w0: Vec<f32> = vec![0.0; kk];
     let mut targets: Vec<f32> = (0..k).map(|i| lr * (i + 1) as f32).collect();
     if acc_at.is_some() {
@@ -92,7 +97,7 @@ pub fn check(case: &Kv, rep: &mut Report) {
     // "zero": the validation target is the prediction after the first epoch, so the first recorded loss is EXACTLY 0 and
     // the trajectory rises (or stays) from there - only for patterns without a fall (the loss is an absolute value)
     let zero = case.opt("scale") == Some("zero");
-    let mut target_value = if tiny { 9.536_743e-7 } else if offset { 1_048_576.0 } else { 1000.0 };
+    let mut target_value = if tiny { 9.536_743e-7 } else if offset || thirds { 1_048_576.0 } else { 1000.0 };
     if zero {
         let mut probe = Kv::new();
         for key in ["epochs", "tol", "val", "pattern"] {
@@ -113,7 +118,14 @@ pub fn check(case: &Kv, rep: &mut Report) {
     let tv = Tensor::single(vec![target_value]);
     let xr: Vec<&Tensor> = xs.iter().collect();
     let tr: Vec<&Tensor> = ts.iter().collect();
-    let (vx, vt) = if acc_at.is_some() { (vec![&xv, &xv2], vec![&tv, &tv2]) } else { (vec![&xv], vec![&tv]) };
+    let blank = tensor(Dims::Flat(k), &vec![0.0; k]);
+    let (vx, vt) = if acc_at.is_some() {
+        (vec![&xv, &xv2], vec![&tv, &tv2])
+    } else if thirds {
+        (vec![&xv, &blank, &blank], vec![&tv, &tv, &tv])
+    } else {
+        (vec![&xv], vec![&tv])
+    };
     // "pre": an earlier learn() call on the same network that leaves the weights where they are (targets equal to the
     // untrained outputs: the absolute-error gradient is exactly zero) - the contract is per call, whatever was run before
     let zero_ts: Vec<Tensor> = (0..k).map(|_| Tensor::single(vec![0.0])).collect();
@@ -230,8 +242,13 @@ pub fn check(case: &Kv, rep: &mut Report) {
         rep.violate("C13 steering failed (machinery)", format!("the first validation loss should be exactly 0, validation losses {:?}", val), case);
         return;
     }
+    if thirds {
+        if (1..n).any(|e| val[e] == val[e - 1]) && pattern.iter().take(n.saturating_sub(1)).all(|p| *p == 'r') {
+            rep.count("recorded_plateaus_under_a_rising_sum", 1);
+        }
+    }
     // the realised pattern must be the commanded one (otherwise the steering failed: machinery, not verdict)
-    for e in 1..n {
+    for e in 1..if thirds { 1 } else { n } {
         let realised = if val[e] > val[e - 1] {
             'r'
         } else if val[e] < val[e - 1] {
@@ -313,6 +330,10 @@ pub fn cases(ctx: &Ctx) -> Vec<Kv> {
                             out.push(Kv::new().put("epochs", epochs).put("tol", tol).put("val", 1).put("pattern", &pat).put("estar", es));
                         }
                     }
+                }
+                // three validation samples around a loss of 2^20: the recorded mean repeats while the sum rises
+                if !pat.contains('e') && (code + tol) % 2 == 0 {
+                    out.push(Kv::new().put("epochs", epochs).put("tol", tol).put("val", 1).put("pattern", &pat).put("scale", "thirds"));
                 }
                 // trajectories that start at a loss of exactly 0 (no fall possible from there)
                 if !pat.contains('f') {
